@@ -465,13 +465,19 @@ class CallsMixin(ExecBase):
         fo = self.opts.get("functional_opaque", ())
         if fo and (name in fo or short in fo or short.split(".")[-1] in fo):
             fargs = ([recv.any()] if isinstance(recv, Val) else []) + [a.any() for a in avals]  # a method's receiver is its first argument
-            f = z3.Function("call." + short, *([Any] * len(fargs)), Any)
+            # a method of an opaque receiver is named by the method alone (the receiver is its first argument), so that the same
+            # method applied to equal receivers reached through different names is the same function
+            uf_name = short.split(".")[-1] if isinstance(recv, Val) else short
+            f = z3.Function("call." + uf_name, *([Any] * len(fargs)), Any)
             res = Val("any", f(*fargs)) if fargs else Val("any", z3.Const("call." + short, Any))
+            # whether a deterministic function raises is itself a function of its arguments
+            det_flag = z3.Function("raises." + uf_name, *([Any] * len(fargs)), BoolS)(*fargs) if fargs else z3.Const("raises." + short, BoolS)
         else:
+            det_flag = None
             res = Val("any", fresh("ret_" + short.replace(".", "_"), Any))
         self.assume(st, res.e != ABSENT)  # `absent` is the encoding of a missing dict entry, never a Python value
         if not is_nothrow:
-            flag = fresh("raises_" + short.replace(".", "_"), BoolS)
+            flag = det_flag if det_flag is not None else fresh("raises_" + short.replace(".", "_"), BoolS)
             self.may_raise(st, flag, Exc(None, origin=name), node)
         st.log.append(CallRec(name, avals, kvals, res, node))
         gcs = self.opts.get("ghost_calls", {})
@@ -493,7 +499,8 @@ class CallsMixin(ExecBase):
         dep = dps.get(name) or dps.get(short) or dps.get(short.split(".")[-1])
         if dep is not None:
             from .contracts import Clause
-            self.assume(st, self.eval_clause(Clause("dep_" + name, dep, "ensures"), {}, st, None, {"result": res}))
+            dbound = {f"arg{i_}": a_ for i_, a_ in enumerate(avals)}
+            self.assume(st, self.eval_clause(Clause("dep_" + name, dep, "ensures"), dbound, st, None, {"result": res}))
             self.assumptions.add(f"assumed dependency contract on {name}: {dep.__doc__ or dep.__name__}")
         if result_cls is not None:
             r = st.new(Cell("obj", fields={}, cls=result_cls, lazy=True, path=f"new_{result_cls.name}!{len(st.log)}"))
